@@ -166,7 +166,7 @@ func drawStyle(t *simrt.Tape) vaxis.Style {
 		}
 	}
 	if t.Draw(5) == 0 {
-		st.Hyperlink = []string{"http://a", "http://b", "x:y"}[t.Draw(3)]
+		st.Hyperlink = []string{"http://a", "http://b", "x:y", "http://h/p;q=1;r"}[t.Draw(4)]
 		if t.Draw(2) == 0 {
 			st.HyperlinkParams = []string{"id=1", "id=2"}[t.Draw(2)]
 		}
